@@ -1107,10 +1107,22 @@ where
             }
 
             // Grab a server from the pool.
-            let connection = match pool
+            let mut checkout = pool
                 .get(query_router.shard(), query_router.role(), &self.stats)
-                .await
-            {
+                .await;
+
+            // The pool may have been paused while we were waiting for a server: starting the
+            // transaction now would run it on a paused pool. Hand the server back and wait for
+            // RESUME like the clients that arrived after the PAUSE.
+            while checkout.is_ok() && pool.paused() {
+                drop(checkout);
+                pool.wait_paused().await;
+                checkout = pool
+                    .get(query_router.shard(), query_router.role(), &self.stats)
+                    .await;
+            }
+
+            let connection = match checkout {
                 Ok(conn) => {
                     debug!("Got connection from pool");
                     conn
